@@ -17,4 +17,17 @@ def Kind.ofString : String → Option Kind
 def Kind.toString : Kind → String
   | .int => "i" | .float => "f" | .complex => "c"
 
+/-- **The binary operators of `MultiVector`, as a table** (`method, kernel, operand order, what a plain number as the other operand does`),
+sorted.  `scale`: the number multiplies the coefficient array (`q * A`, `q ^ A`: the grade-0 multivector of that value, `C03.scalar_operand_gp/op`);
+`zero`: the result is the zero multivector (`q | A`, `C02.inner_scalar_left/right`); `coerce`: `_checkOther` turns the number into the grade-0
+multivector first (`+`, `-`, `lc` / `<<`); `mv-only`: no scalar branch (`vee`, `&`).  `other,self` marks the reflected methods (`__rmul__` …), which pass
+the operands to the kernel in the written order.  `translate/methods2lean.py` reads the same table from the frames of the methods in the current
+source (`_checkOther` call, multivector branch, ndarray branch, scalar branch, `_newMV`): an added shortcut or early return makes it refuse. -/
+def operatorTable : List (String × String × String × String) :=
+  [("__add__", "array", "self+other", "coerce"), ("__and__", "alias", "vee", "mv-only"), ("__lshift__", "alias", "lc", "coerce"),
+   ("__mul__", "gmt_func", "self,other", "scale"), ("__or__", "imt_func", "self,other", "zero"), ("__radd__", "alias", "__add__", "coerce"),
+   ("__rmul__", "gmt_func", "other,self", "scale"), ("__ror__", "imt_func", "other,self", "zero"), ("__rsub__", "array", "other-self", "coerce"),
+   ("__rxor__", "omt_func", "other,self", "scale"), ("__sub__", "array", "self-other", "coerce"), ("__xor__", "omt_func", "self,other", "scale"),
+   ("lc", "lcmt_func", "self,other", "coerce"), ("vee", "vee_func", "self,other", "mv-only")]
+
 end Model
